@@ -38,20 +38,62 @@ func ruleMATRIX(c *Ctx) {
 			c.Undecide(im.name, "function missing")
 			continue
 		}
-		info := f.Info()
+		// the insertQuoted call may sit in a private helper of the subject (extract-method): follow the call chain
+		type link struct {
+			fn   *FuncInfo
+			call *ast.CallExpr
+		}
+		var chain []link // from the subject down to the function that holds the insert; chain[i].call is the call made in chain[i].fn
 		var ins *ast.CallExpr
-		InspectNoLit(f.Body(), func(nd ast.Node) bool {
-			if call, ok := nd.(*ast.CallExpr); ok {
-				if _, ok := MethodCall(info, call, "jsontext", "objectNamespace", "insertQuoted"); ok {
-					ins = call
+		inl0 := p.InlineHelpers(f)
+		inl := func(call *ast.CallExpr) *FuncInfo {
+			g := inl0(call)
+			if g == nil {
+				return nil
+			}
+			for _, other := range impls {
+				if other.name != im.name && other.name == g.Name {
+					return nil // another name-accepting path, checked under its own name
 				}
 			}
-			return true
-		})
+			return g
+		}
+		var search func(fn *FuncInfo, path []link, depth int) bool
+		search = func(fn *FuncInfo, path []link, depth int) bool {
+			found := false
+			InspectNoLit(fn.Body(), func(nd ast.Node) bool {
+				if call, ok := nd.(*ast.CallExpr); ok && !found {
+					if _, ok := MethodCall(fn.Info(), call, "jsontext", "objectNamespace", "insertQuoted"); ok {
+						ins, chain, found = call, append([]link{}, path...), true
+						chain = append(chain, link{fn, call})
+					}
+				}
+				return !found
+			})
+			if found || depth >= 3 {
+				return found
+			}
+			InspectNoLit(fn.Body(), func(nd ast.Node) bool {
+				if call, ok := nd.(*ast.CallExpr); ok && !found {
+					if g := inl(call); g != nil {
+						if search(g, append(path, link{fn, call}), depth+1) {
+							found = true
+						}
+					}
+				}
+				return !found
+			})
+			return found
+		}
+		search(f, nil, 0)
 		if ins == nil {
 			c.Violation("O2-duplicates:"+im.name, f.Pos(), "this name-accepting path never inserts the name into the namespace (duplicate names would be accepted)")
 			continue
 		}
+		holderFn := chain[len(chain)-1].fn
+		subject := f
+		f = holderFn // the local analysis below runs in the function that holds the insert
+		info := f.Info()
 		// conditions: the innermost boolean expression containing the call, plus enclosing ifs
 		var flags uint64
 		active, needName := false, false
@@ -92,6 +134,12 @@ func ruleMATRIX(c *Ctx) {
 			for _, cc := range enclosingConds(p, f, holder) {
 				note(cc.cond)
 			}
+			// conditions around the calls that lead from the subject to the helper
+			for _, l := range chain[:len(chain)-1] {
+				for _, cc := range enclosingConds(p, l.fn, l.call) {
+					note(cc.cond)
+				}
+			}
 			// failure branch mentions ErrDuplicateName
 			usesErr := false
 			ast.Inspect(holder.Body, func(nd ast.Node) bool {
@@ -113,59 +161,27 @@ func ruleMATRIX(c *Ctx) {
 		// the isVerbatim argument: constant, ValueFlags.IsVerbatim(), `m > 0` with m from ConsumeSimpleString, or `safeASCII || !NeedEscape(...)`; single definition
 		if len(ins.Args) == 2 {
 			verb := ast.Unparen(ins.Args[1])
-			okVerb := false
-			var judge func(e ast.Expr, depth int) bool
-			judge = func(e ast.Expr, depth int) bool {
-				e = ast.Unparen(e)
-				if tv, ok := info.Types[e]; ok && tv.Value != nil {
-					return true
+			okVerb := verbatimArgOK(p, f, verb)
+			if !okVerb && len(chain) > 1 {
+				// a parameter of the helper: judge the argument at the call that enters it
+				if pv, _ := IdentObj(info, verb).(*types.Var); pv != nil && f.Obj != nil {
+					sig := f.Obj.Type().(*types.Signature)
+					for i := 0; i < sig.Params().Len(); i++ {
+						if sig.Params().At(i) != pv {
+							continue
+						}
+						l := chain[len(chain)-2]
+						if i < len(l.call.Args) {
+							okVerb = verbatimArgOK(p, l.fn, l.call.Args[i])
+						}
+					}
 				}
-				switch x := e.(type) {
-				case *ast.CallExpr:
-					if cf := Callee(info, x); cf != nil && cf.Name() == "IsVerbatim" {
-						return true
-					}
-				case *ast.BinaryExpr:
-					if x.Op == token.GTR {
-						if v := IdentObj(info, x.X); v != nil {
-							for _, d := range defsOf(info, f.Body(), v) {
-								if dc, ok := ast.Unparen(d).(*ast.CallExpr); ok && FuncCall(info, dc, "jsonwire", "ConsumeSimpleString") {
-									return true
-								}
-							}
-						}
-					}
-					if x.Op == token.LOR {
-						// safeASCII || !jsonwire.NeedEscape(...)
-						if u, ok := ast.Unparen(x.Y).(*ast.UnaryExpr); ok && u.Op == token.NOT {
-							if nc, ok := ast.Unparen(u.X).(*ast.CallExpr); ok && FuncCall(info, nc, "jsonwire", "NeedEscape") {
-								return true
-							}
-						}
-					}
-				case *ast.Ident:
-					v := IdentObj(info, x)
-					if v == nil || depth > 1 {
-						return false
-					}
-					defs := defsOf(info, f.Body(), v)
-					if len(defs) == 0 {
-						return false
-					}
-					for _, d := range defs {
-						if !judge(d, depth+1) {
-							return false
-						}
-					}
-					return true
-				}
-				return false
 			}
-			okVerb = judge(verb, 0)
 			if !okVerb {
 				problems = append(problems, "the isVerbatim argument `"+exprString(verb)+"` is not derived solely from the scanner's own verdict (ConsumeSimpleString / ValueFlags.IsVerbatim / NeedEscape): a name that still needs unquoting would be compared raw")
 			}
 		}
+		_ = subject
 		c.Oblige("O2-duplicates:"+im.name, ins.Pos(), len(problems) == 0, strings.Join(problems, "; "))
 	}
 	// O3: UTF-8
@@ -583,4 +599,106 @@ func nameGuardOK(p *Program, f *FuncInfo, nonStr types.Object) bool {
 	}
 	fl.Run(st{})
 	return ok && nret > 0
+}
+
+// verbatimArgOK judges an isVerbatim argument in the context of function fn:
+// a constant, ValueFlags.IsVerbatim(), `m > 0` with m from ConsumeSimpleString,
+// `safeASCII || !NeedEscape(..)`, or a local all of whose definitions are such.
+func verbatimArgOK(p *Program, fn *FuncInfo, e ast.Expr) bool {
+	info := fn.Info()
+	var judge func(e ast.Expr, depth int) bool
+	judge = func(e ast.Expr, depth int) bool {
+		e = ast.Unparen(e)
+		if tv, ok := info.Types[e]; ok && tv.Value != nil {
+			return true
+		}
+		switch x := e.(type) {
+		case *ast.CallExpr:
+			if cf := Callee(info, x); cf != nil && cf.Name() == "IsVerbatim" {
+				return true
+			}
+		case *ast.BinaryExpr:
+			if x.Op == token.GTR {
+				if v := IdentObj(info, x.X); v != nil {
+					for _, d := range defsOf(info, fn.Body(), v) {
+						if dc, ok := ast.Unparen(d).(*ast.CallExpr); ok && FuncCall(info, dc, "jsonwire", "ConsumeSimpleString") {
+							return true
+						}
+					}
+				}
+			}
+			if x.Op == token.LOR {
+				if u, ok := ast.Unparen(x.Y).(*ast.UnaryExpr); ok && u.Op == token.NOT {
+					if nc, ok := ast.Unparen(u.X).(*ast.CallExpr); ok && FuncCall(info, nc, "jsonwire", "NeedEscape") {
+						return true
+					}
+				}
+			}
+		case *ast.Ident:
+			v := IdentObj(info, x)
+			if v == nil || depth > 1 {
+				return false
+			}
+			defs := defsOf(info, fn.Body(), v)
+			if len(defs) == 0 {
+				return false
+			}
+			for _, d := range defs {
+				if judge(d, depth+1) {
+					continue
+				}
+				// one result of a repo helper: judge what the helper returns in that position
+				if !resultOK(p, fn, v, d) {
+					return false
+				}
+			}
+			return true
+		}
+		return false
+	}
+	return judge(e, 0)
+}
+
+// resultOK: v is assigned from one result of a call to a repo function; every
+// return statement of that function must yield an acceptable isVerbatim value
+// in that position.
+func resultOK(p *Program, fn *FuncInfo, v types.Object, def ast.Expr) bool {
+	info := fn.Info()
+	call, ok := ast.Unparen(def).(*ast.CallExpr)
+	if !ok {
+		return false
+	}
+	cf := Callee(info, call)
+	if cf == nil {
+		return false
+	}
+	g := p.FuncOf(cf)
+	if g == nil || g.Body() == nil {
+		return false
+	}
+	idx := -1
+	ast.Inspect(fn.Body(), func(n ast.Node) bool {
+		if as, ok := n.(*ast.AssignStmt); ok && len(as.Rhs) == 1 && ast.Unparen(as.Rhs[0]) == ast.Expr(call) {
+			for i, l := range as.Lhs {
+				if IdentObj(info, l) == v {
+					idx = i
+				}
+			}
+		}
+		return true
+	})
+	if idx < 0 {
+		return false
+	}
+	nret, okAll := 0, true
+	InspectNoLit(g.Body(), func(n ast.Node) bool {
+		if r, ok := n.(*ast.ReturnStmt); ok {
+			nret++
+			if idx >= len(r.Results) || !verbatimArgOK(p, g, r.Results[idx]) {
+				okAll = false
+			}
+		}
+		return true
+	})
+	return nret > 0 && okAll
 }
